@@ -123,6 +123,24 @@ def enumerate_inputs(k, budget_s, seed=0, repo=REPO, kinds=None):
     return None, 0
 
 
+def deep_check(ns=(105, 150), kinds=None, repo=REPO):
+    """the structured deep-nesting inputs only (past the parser's depth limit, with tokens left over where the limit is hit)
+    -> (witness | None, number of inputs run)"""
+    cnt = 0
+    for n in ns:
+        for nm, _, _, _ in DEEP:
+            w = run_one(deep_input(nm, n), repo)
+            cnt += 1
+            if w and kinds and w['kind'] not in kinds:
+                w = None
+            if w:
+                w['input_recipe'] = '%s x %d' % (nm, n)
+                if len(w['input']) > 400:
+                    w['input'] = w['input'][:200] + ' ...(%d chars; regenerate from input_recipe)' % len(w['input'])
+                return w, cnt
+    return None, cnt
+
+
 def search(k, budget_s, deep_ns=(150, 400, 3000, 120000), seed=0, repo=REPO, kinds=None):
     """Witness search: deep-nesting inputs first, then token-class enumeration.
     -> witness dict or None"""
